@@ -2,10 +2,10 @@
    Proofs.QueryProofs (comparison methods, labels) and Proofs.SmartsProofs (bracket-atom parser, construction, bond
    tokens).  Gen.Elements, Gen.TokenTables and Gen.SmartsTables are regenerated from /repo on every run. *)
 From Coq Require Import ZArith List String Ascii Bool Permutation.
-From Gen Require Import Elements TokenTables SmartsTables QueryParseBody QueryEqBody LabelsBody.
+From Gen Require Import Elements TokenTables SmartsTables QueryParseBody QueryEqBody LabelsBody QBondEqBody FromAtomBody.
 From Model Require Import PyBase Graph PeriodicTable Tokenize Smarts Query SmartsFull.
 From Model Require Parser.
-From Proofs Require Import QueryProofs TokenizeProofs SmartsProofs SmartsRoundtrip SmartsParser SmartsFullProofs SmartsDenote SmartsDenoteText SmartsTree SmartsTreeText SmartsStereo SmartsRing SmartsRingText SmartsMolMatch SmartsPins SmartsNumbers SmartsDots SmartsDotsText SmartsCanonical SmartsRingDots SmartsRingDotsText QueryParseTie QueryParseSep QueryParseSep2 QueryEqTie LabelsTie.
+From Proofs Require Import QueryProofs TokenizeProofs SmartsProofs SmartsRoundtrip SmartsParser SmartsFullProofs SmartsDenote SmartsDenoteText SmartsTree SmartsTreeText SmartsStereo SmartsRing SmartsRingText SmartsMolMatch SmartsPins SmartsNumbers SmartsDots SmartsDotsText SmartsCanonical SmartsRingDots SmartsRingDotsText QueryParseTie QueryParseSep QueryParseSep2 QueryEqTie LabelsTie QBondEqTie FromAtomTie.
 Import ListNotations.
 Open Scope Z_scope.
 
@@ -858,3 +858,40 @@ Theorem C08_mark_position_atom : forall x g y,
    smarts_atom (x ++ ";"%char :: g ++ y)%list = smarts_atom (x ++ g ++ y)%list).
 Proof. intros x g y. split; [apply charge_position_atom | apply stereo_position_atom]. Qed.
 Print Assumptions C08_mark_position_atom.
+
+(* ---------------------------------------------------------------------------------------------------------------- *)
+(* TIE BY TRANSLATION (round 5): QueryBond.__eq__ (bonds.py, the isinstance dispatch with every branch; tools/gen_qbondeq.py ->
+   Gen.QBondEqBody) and QueryElement.from_atom (query.py, every statement; tools/gen_fromatom.py -> Gen.FromAtomBody) are
+   regenerated from the source on every run and equal the hand-written qbond_match / from_atom for all inputs. *)
+Theorem C08_qbond_eq_translated : forall q b, g_eq_QueryBond q (OBond b) = qbond_match q b.
+Proof. exact g_eq_QueryBond_bond. Qed.
+Print Assumptions C08_qbond_eq_translated.
+
+Theorem C08_qbond_eq_translated_others : forall q,
+  (forall o, g_eq_QueryBond q (OQuery o) = list_eqb Z.eqb (qb_ord q) (qb_ord o) && option_eqb Bool.eqb (qb_ring q) (qb_ring o)) /\
+  (forall n, g_eq_QueryBond q (OInt n) = zmem n (qb_ord q)) /\ g_eq_QueryBond q OOther = false.
+Proof. exact g_eq_QueryBond_others. Qed.
+Print Assumptions C08_qbond_eq_translated_others.
+
+Theorem C08_qbond_eq_translated_example :
+  g_eq_QueryBond (mkQB [1; 2] (Some true)) (OBond (mkLB 2 true)) = true /\ g_eq_QueryBond (mkQB [1; 2] (Some true)) (OBond (mkLB 2 false)) = false /\
+  g_eq_QueryBond (mkQB [1; 2] None) (OBond (mkLB 3 false)) = false /\ g_eq_QueryBond (mkQB [1; 2] None) (OInt 2) = true /\
+  g_eq_QueryBond (mkQB [1; 2] None) (OQuery (mkQB [1; 2] (Some false))) = false.
+Proof. exact g_eq_QueryBond_example. Qed.
+Print Assumptions C08_qbond_eq_translated_example.
+
+Theorem C08_from_atom_translated : forall a st f_nb f_hyb f_het f_h f_rings f_st,
+  exists g, g_from_atom a st f_nb f_hyb f_het f_h f_rings f_st = Ok g /\
+            gq_qatom g = from_atom a f_nb f_hyb f_het f_h f_rings /\ gq_stereo g = (if f_st then st else None).
+Proof. exact g_from_atom_eq. Qed.
+Print Assumptions C08_from_atom_translated.
+
+Theorem C08_from_atom_translated_example :
+  let a := mkLA 6 (Some 13) (-1) false 3 2 (Some 0) 1 [6; 5] in
+  option_map gq_qatom (match g_from_atom a (Some true) true true true true true true with Ok g => Some g | Err _ => None end) =
+    Some (QElem 6 (Some 13) (mkQX (-1) false [3] [2] [0] [1] [5; 6] false)) /\
+  option_map gq_stereo (match g_from_atom a (Some true) false false false false false true with Ok g => Some g | Err _ => None end) = Some (Some true) /\
+  option_map gq_qatom (match g_from_atom (mkLA 8 None 0 false 1 1 None 0 []) None false false false true true false with Ok g => Some g | Err _ => None end) =
+    Some (QElem 8 None (mkQX 0 false [] [] [] [] [0] false)).
+Proof. exact g_from_atom_example. Qed.
+Print Assumptions C08_from_atom_translated_example.
